@@ -40,6 +40,7 @@ class Reporter:
         self.floors: Dict[str, int] = {}
         self.info: List[str] = []
         self.analysed: Dict[str, object] = {}
+        self.deferred: List[str] = []
 
     def ok(self, rule, key, site, detail, nontrivial=True):
         self.obs.append(Ob(self.prop, rule, key, site, True, detail, nontrivial))
@@ -60,6 +61,22 @@ class Reporter:
 
     def note(self, msg: str):
         self.info.append(msg)
+
+    def run(self, fn, *args, **kw):
+        """Run one rule.  An analysis error inside it (an anchor that vanished, an idiom the rule does not know) is
+        kept and does not stop the other rules: when those report a violation, that is the verdict; when nothing
+        is violated the run still fails as ANALYSIS-ERROR (exit 2) — an unanalysable rule never counts as a pass."""
+        try:
+            return fn(*args, **kw)
+        except AnalysisError as e:
+            self.deferred.append(f"{getattr(fn, '__name__', fn)}: {e}")
+            return None
+        except Exception as e:  # noqa: BLE001 — a rule tripping over a shape it does not expect is an analysis error of that rule
+            import traceback
+
+            tb = traceback.extract_tb(e.__traceback__)[-1]
+            self.deferred.append(f"{getattr(fn, '__name__', fn)}: internal error {type(e).__name__}: {e} ({tb.filename.split('/')[-1]}:{tb.lineno})")
+            return None
 
     def verify_floors(self, strict: bool = True):
         counts: Dict[str, int] = {}
@@ -114,6 +131,10 @@ def finish(rep: Reporter, tier: str, seed: int, t0: float, extra: Optional[dict]
     # Floors guard against passing vacuously.  When the run has unlisted violations to report,
     # those are the verdict; a rule that lost instances next to a reported violation is not an analysis error.
     has_unlisted = any((not o.ok) and (o.prop, o.ident) not in known for o in rep.obs)
+    if rep.deferred and not has_unlisted:
+        raise AnalysisError("; ".join(rep.deferred))
+    for d in rep.deferred:
+        print(f"NOTE: rule not analysable on this tree (reported next to the violation(s) below): {d}")
     counts = rep.verify_floors(strict=not has_unlisted)
     viol_dir = EVIDENCE_DIR / "violations"
     # remove stale violation files of this property
